@@ -12,6 +12,12 @@ CHECKS = {
         note="Trusted base: vlib/gen_expr.rev (40-line evaluator of the recipe with the ordinary meaning), Python itertools enumeration. Only well-typed DSL-built trees; 1-ary SUB excluded. Default backend of the tree (z3 offline). 9/9 sensitivity mutants caught (tools/mutant_table.py).",
         design_ref="3/C01",
     ),
+    "C02": dict(
+        technique="Hypothesis-generated programs x answer-key subsets x six backend names against the brute-force solution set (reference model); external solvers replaced by an independent stand-in",
+        text="For each generated enumerable program and key subset the full solution set is enumerated; solve() must return True iff it is non-empty and every key's sol must be the common value or None exactly as the set dictates. Both refinement routes: cspuz' own refute-and-resolve loop (z3, sugar incl. a real subprocess) and the native deduction reply (sugar_extended, csugar, enigma_csp, cspuz_core) answered by vlib/fakesolver. A solve-count budget (|keys|+3) turns a non-terminating refinement loop into a deterministic failure. Exploration: sampled programs.",
+        note="Trusted base: vlib/gen_expr.rev evaluator, brute-force enumeration, vlib/sexp + vlib/fakesolver as a correct external solver (cross-checked against refz3). Real Sugar/csugar/cspuz_core binaries are not available offline. 9/9 sensitivity mutants caught.",
+        design_ref="3/C02",
+    ),
     "C13": dict(
         technique="exhaustive small-scope enumeration + Hypothesis key pairs against Python list indexing (differential oracle)",
         text="Every integer key, slice triple (bounds in [-size-3,size+3], steps +-1,2,3,5), key pair, coordinate list, flatten and reshape on all 1-D sizes 0..6 and 2-D shapes up to 4x4 (plus 2x5/5x2/1x6) is compared with Python's own list indexing; exhaustive inside that scope, sampled by Hypothesis beyond it. Exploration level: no absence proof beyond the scope, but the code has no size-dependent branch other than the per-axis normalisation the scope crosses.",
